@@ -13,7 +13,7 @@ IsErr(resp) == resp.status >= 400
 
 \* the positive amounts <<c, u, rc, amt>> a write request asks for
 Placed(r) == CASE r.op = "alloc_put" ->
-                   Items(<<[c |-> r.c, allocs |-> r.allocs]>>)
+                   Items(<<[c |-> r.c, allocs |-> LastWins(r.allocs)]>>)
                [] r.op \in {"alloc_post", "reshape"} -> Items(r.entries)
                [] OTHER -> {}
 WrittenConsumers(r) == CASE r.op = "alloc_put" -> {r.c}
@@ -29,6 +29,11 @@ C01_Accepted(pre, r, resp, post) ==
         /\ HasInv(post, it[2], it[3])
         /\ UnitsOK(post.inv[it[2]][it[3]], it[4])
         /\ ~Over(post, it[2], it[3])
+  \* and what the written consumers hold afterwards (whatever the request was parsed into)
+  /\ (r.op \in AllocWriters /\ IsOk(resp)) =>
+     \A c \in WrittenConsumers(r) \cap DOMAIN post.alloc : \A p \in DOMAIN post.alloc[c] : \A k \in DOMAIN post.alloc[c][p] :
+        /\ HasInv(post, p, k)
+        /\ UnitsOK(post.inv[p][k], post.alloc[c][p][k])
 C01_OverOnlyByInventory(pre, r, resp, post) ==
   \A pk \in AllPairs(post) :
      (Over(post, pk[1], pk[2]) /\ ~Over(pre, pk[1], pk[2])) => r.op \in InventoryWriters
